@@ -39,6 +39,20 @@ def annotate(op, reply):
 
 def spec_violated(rep):
     """Spec oracle on implementation replies only."""
+    if rep.get("correspondence") == "C14s":
+        # the log itself is the implementation's behaviour: grants per queue must follow enqueue order,
+        # and a `hang` line means a caller was never served
+        heads = {}
+        for op in rep["ops"]:
+            w = op.split()
+            if w and w[0] == "hang":
+                return "a Lock call never returned under concurrent load (log ends with `hang`)"
+            if len(w) == 3 and w[0] == "acq":
+                k, n = w[1], int(w[2])
+                if n < heads.get(k, 0):
+                    return "queue %s granted caller %d after caller %d (not arrival order)" % (k, n, heads[k])
+                heads[k] = n
+        return None
     key_of, last = {}, {}
     for op, line in zip(rep["ops"], rep["impl"]):
         if op.startswith("case "):
@@ -76,6 +90,13 @@ def run(ctx):
         args = ["%s=%s" % (k, facts.get(k, "unknown")) for k in ("wake", "wakeOnlyIfHead", "ttlThresh", "ttlFloor", "gwWithoutCancel", "idSource")]
         c = P.correspondence_observed(ctx, "C14", args, annotate)
         corrs.append(("C14", args, c))
+        # genuinely concurrent run of the real lock; its hook log (written under each queue's own mutex)
+        # must be a trace of the model
+        targs = args + ["mode=trace"]
+        ct = K.correspondence(ctx, "C14s", targs, drv_domain="C14")
+        corrs.append(("C14s", targs, ct))
+        ctx.cov["trace_inclusion"] = {"domain": "C14s", "log_lines": len(ct.ops), "rounds": len(ct.cases),
+                                      "lines_rejected_by_model": len(ct.mismatch), "event_histogram": ct.op_hist}
     else:
         ctx.violation("harness does not build against the repository", {"correspondence": "C14", "log": getattr(ctx, "hx_log", "")[-2000:]},
                       tag="build", found_input=False)
